@@ -260,9 +260,12 @@ where
                 let text = editor.text_mut();
 
                 let tokens = Tokens::new(text);
-                self.process_input::<C, _>(tokens, processor)?;
+                let result = self.process_input::<C, _>(tokens, processor);
 
+                // tokens were created in place, so input must be discarded
+                // even if processing failed
                 editor.clear();
+                result?;
 
                 self.writer.flush_str(self.prompt)?;
             }
